@@ -500,6 +500,31 @@ class World:
 
                         mod.quaternion_lu = failing
                         undo.append((mod, "quaternion_lu", orig))
+            if fault.get("linalg_fail"):
+                # the k-th call of a LAPACK-backed factorisation (numpy.linalg / scipy.linalg `fn`) made by
+                # the library during this op fails with LinAlgError ("did not converge"): a loud failure is
+                # a legal outcome, a silently wrong answer is not
+                import numpy.linalg as _nl
+                import scipy.linalg as _sl
+                fnname = fault["linalg_fail"]["fn"]
+                state = {"n": 0, "at": int(fault["linalg_fail"].get("k", 1))}
+                origs = {id(getattr(m_, fnname)): getattr(m_, fnname) for m_ in (_nl, _sl) if hasattr(m_, fnname)}
+
+                def make(orig_):
+                    def failing(*a_, **k_):
+                        state["n"] += 1
+                        if state["n"] == state["at"]:
+                            raise np.linalg.LinAlgError(f"{fnname} did not converge (injected)")
+                        return orig_(*a_, **k_)
+                    return failing
+                self.linalg_state = state
+                wraps = {oid: make(o_) for oid, o_ in origs.items()}
+                holders = [_nl, _sl] + [mod for _nm, mod in self.repo_modules()]
+                for h_ in holders:
+                    for attr, val in list(h_.__dict__.items()):
+                        if callable(val) and id(val) in wraps:
+                            setattr(h_, attr, wraps[id(val)])
+                            undo.append((h_, attr, val))
             if fault.get("utri_zero") is not None:
                 # forced "zero diagonal in the small triangular solve": the idx-th modulus
                 # computed by absQsparse reports 0, which sends UtriangleQsparse down its
@@ -676,6 +701,9 @@ class Executor:
         if fault.get("line") is not None:
             rec["fault_fired"] = bool(fired)
             rec["fault_at"] = list(fired) if fired else None
+        if fault.get("linalg_fail"):
+            st_ = getattr(w, "linalg_state", None) or {}
+            rec["fault_fired"] = st_.get("n", 0) >= st_.get("at", 1)
         rec["clock_reads"] = w.clock.reads - reads0
         rec["sim_s"] = w.clock.elapsed - el0
         rec["draws"] = [list(sh) for (kind, sh, _v) in log if kind == "randn"]
